@@ -15,12 +15,14 @@ use libp2p_identity::PeerId;
 use libp2p_swarm::{
     ConnectionHandlerEvent, NotifyHandler, StreamProtocol, SubstreamProtocol, ToSwarm,
 };
+use quick_protobuf::sizeofs::sizeof_len;
+use quick_protobuf::MessageWrite;
 use smallvec::SmallVec;
 use tracing::{debug, trace};
 
 use crate::cid_prefix::CidPrefix;
 use crate::incoming_stream::ServerMessage;
-use crate::message::Codec;
+use crate::message::{Codec, MAX_MESSAGE_SIZE};
 use crate::proto::message::{
     mod_Message::Block as ProtoBlock, mod_Message::Wantlist as ProtoWantlist, Message,
 };
@@ -392,13 +394,7 @@ impl<const S: usize> ServerConnectionHandler<S> {
                         continue;
                     }
 
-                    let messages = pending_messages
-                        .take()
-                        .expect("pending_messages can't be None here");
-                    let message = Message {
-                        payload: messages,
-                        ..Message::default()
-                    };
+                    let message = take_next_message(pending_messages);
 
                     if sink.start_send_unpin(&message).is_err() {
                         self.close_sink_on_error("start_send_unpin");
@@ -421,6 +417,41 @@ impl<const S: usize> ServerConnectionHandler<S> {
         ConnectionHandlerEvent<ReadyUpgrade<StreamProtocol>, StreamRequester, ToBehaviourEvent<S>>,
     > {
         self.poll_outgoing(cx)
+    }
+}
+
+/// Takes from the pending blocks as many as fit in a single message, so that
+/// `MAX_MESSAGE_SIZE` is not exceeded. At least one block is always taken. The
+/// rest of the blocks stay pending and they will be sent with the next messages.
+fn take_next_message(pending_messages: &mut Option<Vec<ProtoBlock>>) -> Message {
+    let mut blocks = pending_messages
+        .take()
+        .expect("pending_messages can't be None here");
+
+    let mut size = 0;
+    let mut count = 0;
+
+    for block in &blocks {
+        // tag + length prefix + encoded block
+        let block_size = 1 + sizeof_len(block.get_size());
+
+        if count > 0 && size + block_size > MAX_MESSAGE_SIZE {
+            break;
+        }
+
+        size += block_size;
+        count += 1;
+    }
+
+    let rest = blocks.split_off(count);
+
+    if !rest.is_empty() {
+        *pending_messages = Some(rest);
+    }
+
+    Message {
+        payload: blocks,
+        ..Message::default()
     }
 }
 
